@@ -3,6 +3,8 @@ from core import Case
 from . import rtgen as R
 
 ID = "C11"
+# theorems of Props/Tables.lean over the decision logic TRANSLATED from /repo/src/lib.rs on every run (DESIGN 11.7)
+TABLE_THEOREMS = ['src_updFilter_eq', 'src_resolveField_eq']
 THEOREMS = ['Portus.C11.resolveFields_spec', 'Portus.C11.set_program_spec', 'Portus.C11.update_field_spec', 'Portus.C11.set_program_effect', 'Portus.C11.update_field_effect', 'Portus.C11.updatable_reg_encodes', 'Portus.C06.changeprog_read_by_libccp']
 SPEC_IS_ORACLE = True
 KEEP = {"TX CP", "TX UF", "TXFAIL", "SP", "UF", "NF", "RP", "RES"}   # RES carries late=: what a handle that outlived the runtime answers
@@ -26,6 +28,8 @@ def gen(ctx):
         yield Case("RUN", a, tags=("handle-limits",))
     for a in R.declared_kind_value_cases():
         yield Case("RUN", a, tags=("declared-kind-x-value",))
+    for a in R.shadowing_control_cases():
+        yield Case("RUN", a, tags=("control-shadowing-a-built-in",))
     for a in R.same_names_other_program_cases():
         yield Case("RUN", a, tags=("same-names-other-program",))
     for _ in range(40000 if ctx.thorough else 3000):
